@@ -104,6 +104,8 @@ func (g *GetDeviceIDRsp) DecodeFromBytes(data []byte, df gopacket.DecodeFeedback
 		uint32(data[8])<<16)
 	g.Product = binary.LittleEndian.Uint16(data[9:11])
 	if len(data) > 11 {
+		// the copy below may cover fewer than 4 bytes
+		g.AuxiliaryFirmwareRevision = [4]byte{}
 		copy(g.AuxiliaryFirmwareRevision[:], data[11:])
 	} else {
 		g.AuxiliaryFirmwareRevision = [4]byte{}
